@@ -661,13 +661,15 @@ class Exec(object):
                 idx += 1
                 try:
                     pending = self.do_exchange(rec, e, idx)
+                    if pending is None:
+                        self.mark('send', ok=True)          # this exchange's session has ended
                     if held is not None:
                         for _ in held:      # the overlapped session receives its response only now
                             pass
                         held = None
+                        self.mark('send', ok=True)          # ... and the overlapped one ends after it
                     if pending is not None:
-                        held = pending
-                    self.mark('send', ok=True)
+                        held = pending      # request record written; the session stays open
                 except Injected:
                     self.mark('send', ok=False)
                 except OSError as err:
@@ -678,6 +680,7 @@ class Exec(object):
                 if held is not None:
                     for _ in held:
                         pass
+                    self.mark('send', ok=True)
                 rec.close()
             except OSError:
                 if self.fs.injected is None:
